@@ -171,13 +171,14 @@ def r2_freshness(ctx):
               'parse_options_to_ExportOptions returns an ExportOptions object created in the call')
     # defaults that are module-level sets are copied
     eo = ctx.prog.func(f'{N.EXPORTER}.ExportOptions.__init__')
-    for n in walk_local(eo.node):
-        if isinstance(n, ast.Assign) and len(n.targets) == 1 and src(n.targets[0]) == 'self.spine_types':
-            s = src(n.value)
-            ctx.check('deepcopy(HEADERS)' in s or 'set(HEADERS)' in s or 'list(HEADERS)' in s or 'HEADERS.copy()' in s,
-                      'R2', f'{eo.module.relpath}:{n.lineno}', eo.qualname, 'headers-default-copied',
-                      'the default spine_types is a copy of the module-level HEADERS set',
-                      f'default spine_types is `{s}`: the shared HEADERS set itself would be handed out')
+    stp = 'spine_types'
+    rows = F.store_table(eo).get('self.spine_types', [])
+    bad = [src(v) for c, v, _ in rows if src(v) != stp and 'HEADERS' in src(v)
+           and not any(k in src(v) for k in ('deepcopy(HEADERS)', 'set(HEADERS)', 'list(HEADERS)', 'HEADERS.copy()', 'copy(HEADERS)', 'frozenset(HEADERS)'))]
+    dflt_rows = [src(v) for c, v, _ in rows if src(v) != stp]
+    ctx.check(rows and dflt_rows and not bad, 'R2', eo.loc, eo.qualname, 'headers-default-copied',
+              'the default spine_types is a copy of the module-level HEADERS set',
+              f'default spine_types is `{(bad or dflt_rows or [None])[0]}`: the shared HEADERS set itself would be handed out')
     dflt = ctx.prog.func(f'{N.EXPORTER}.ExportOptions.default')
     for n in walk_local(dflt.node):
         if isinstance(n, ast.keyword) and n.arg == 'spine_types':
